@@ -93,6 +93,9 @@ type Class struct {
 	Batch int `json:"batch,omitempty"`
 	// Toolchain: "" default go, "go1.26.8" for synctest workers.
 	Toolchain string `json:"toolchain,omitempty"`
+	// NeedsCLI: the class drives the command-line tool (cmd/wazero), which the driver builds from the
+	// repository under check and announces in VERIF_WAZERO_CLI.
+	NeedsCLI bool `json:"needs_cli,omitempty"`
 	// Instrumented: needs the instrumented copy of the repository.
 	Instrumented bool `json:"instrumented,omitempty"`
 	// ExpectDeath: sacrificial class – every run is expected to kill the
